@@ -16,7 +16,7 @@ func init() {
 }
 
 func rulesC02(c *Ctx, r *Report) {
-	r.explain("Decides: (SC-BUF) every bufio.NewScanner in the package gets Buffer(_, max) with constant max ≥ 2^30 before its first Scan on every path — the default 64 KiB token limit rejects exactly the long reads the property quantifies over; (F4L) Write's single constant format is \"@%s\\n%s\\n+\\n%s\\n\" with operands Name, Sequence, Quals in that order; the reader's accepting path makes four Scan calls, each of which must have returned true, and builds the record's Name, Sequence, Quals from the views of scans 1, 2 and 4 (Name without its first byte); (REJECT) the accepting return is dominated by the edge name[0] == '@' with len(name) > 0, by HasPrefix(line3, \"+\") == true, and by len(quals) == len(seq): a record lacking '@', lacking '+', with unequal lengths or cut short cannot reach it; (SCAN-ALIAS) no Scanner.Bytes view reaches the record without a copy; (G1) MarshalText = Write; (PASS-ALL) the iterator layers hand on every record. Error/partial-record discipline of read() is decided under C07. Not decided: equality of the round trip. Added rules: (REJECT io.EOF) no return behind a delivered first line can carry io.EOF; (SCAN-ALIAS) additionally no view is used after a later Scan; no custom split function; (YD1/YD2) the fastq iterators stop after a false callback result and after an error item. Entry points (shared with C06/C18, restricted to this package): (FD) File(path) opens path with aio.Open, yields the open error and otherwise ranges over Reader on the opened bytes; (A6) the stream only enters a buffering reader, never a direct Read (a sniffing Read sees whatever the first chunk holds); (NIL-HANDLE) the handle is touched only behind the error check.")
+	r.explain("Decides: (SC-BUF) every bufio.NewScanner in the package gets Buffer(_, max) with constant max ≥ 2^30 before its first Scan on every path — the default 64 KiB token limit rejects exactly the long reads the property quantifies over; (F4L) Write's single constant format is \"@%s\\n%s\\n+\\n%s\\n\" with operands Name, Sequence, Quals in that order; the reader's accepting path makes four Scan calls, each of which must have returned true, and builds the record's Name, Sequence, Quals from the views of scans 1, 2 and 4 (Name without its first byte); (REJECT) the accepting return is dominated by the edge name[0] == '@' with len(name) > 0, by HasPrefix(line3, \"+\") == true, and by len(quals) == len(seq): a record lacking '@', lacking '+', with unequal lengths or cut short cannot reach it; (SCAN-ALIAS) no Scanner.Bytes view reaches the record without a copy; (G1) MarshalText = Write; (PASS-ALL) the iterator layers hand on every record. Error/partial-record discipline of read() is decided under C07. Not decided: equality of the round trip. Added rules: (REJECT io.EOF) no return behind a delivered first line can carry io.EOF; (SCAN-ALIAS) additionally no view is used after a later Scan; no custom split function; (YD1/YD2) the fastq iterators stop after a false callback result and after an error item. Entry points (shared with C06/C18, restricted to this package): (FD) File(path) opens path with aio.Open, yields the open error and otherwise ranges over Reader on the opened bytes; (A6) the stream only enters a buffering reader, never a direct Read (a sniffing Read sees whatever the first chunk holds); (NIL-HANDLE) the handle is touched only behind the error check. (SC-BUF, extended) the initial buffer handed to Scanner.Buffer is nil or allocated at that call — no two readers share scanning memory; (F4L, extended) Name, Sequence and Quals are copies or cuts of the scanner's lines: between the line and the field only slices.Clone/bytes.Clone/append-onto-empty/slicing (also inside package helpers, which are followed) — no Trim*, no rewriting; (LAYER) no decompressor or transcoder in the codec packages.")
 	r.assume("bufio.Scanner with ScanLines delivers each line without its terminator; a Scanner's buffer may be reused after the next Scan")
 	ruleG1(c, r, "formats/fastq", "Fastq")
 	rulesScanBuf(c, r, "formats/fastq")
